@@ -147,10 +147,14 @@ package rangeproof
 //@   requires limit >= 0 && limit <= 1048576
 //@   ensures shape: result != nil && fresh(result) && len(deref(result)) == limit + 1
 //@   ensures[C13] sound: forall idx in 0..limit+1 :: sqentry(deref(result)[idx], idx)
+//@   ensures[C13] equality: limit >= 1 ==> len(deref(result)[0]) == 3
 //@   modifies nothing
 //@   loop 0 invariant 0 <= i && i <= 2049 && fresh(result) && len(result) == limit + 1 && forall idx in 0..limit+1 :: sqentry(result[idx], idx)
 //@   loop 1 invariant 0 <= i && i <= 2048 && 0 <= j && j <= 2049 && i * i <= 4 * limit && fresh(result) && len(result) == limit + 1 && forall idx in 0..limit+1 :: sqentry(result[idx], idx)
 //@   loop 2 invariant 0 <= i && i <= 2048 && 0 <= j && j <= 2048 && 0 <= k && k <= 2049 && i * i + j * j <= 4 * limit && fresh(result) && len(result) == limit + 1 && forall idx in 0..limit+1 :: sqentry(result[idx], idx)
+//@   loop 0 invariant limit >= 1 && i > 0 ==> len(result[0]) == 3
+//@   loop 1 invariant limit >= 1 && (i > 0 || j > 1) ==> len(result[0]) == 3
+//@   loop 2 invariant limit >= 1 && (i > 0 || j > 1 || (j == 1 && k > 1)) ==> len(result[0]) == 3
 //@   loop 0 modifies elems(result)
 //@   loop 1 modifies elems(result)
 //@   loop 2 modifies elems(result)
